@@ -31,6 +31,12 @@ GENERIC_ITEMS = [  # compile-valid generic declarations per derive family (deriv
     ("Debug", "#[derive(derive_more::Debug)] pub enum G<'a, T, U> where T: Clone { A(&'a T), B { x: U }, C }"),
     ("Error", "#[derive(derive_more::Debug, derive_more::Display, derive_more::Error)] #[display(\"e\")] pub struct G<E, const N: usize> { pub source: E, pub pad: [u8; N] }"),
     ("Error", "#[derive(derive_more::Debug, derive_more::Display, derive_more::Error)] #[display(\"e\")] pub enum G<'a, E> { A { source: E }, B(#[error(not(source))] &'a str), C }"),
+    ("Error", "#[derive(derive_more::Debug, derive_more::Display, derive_more::Error)] #[display(\"e\")] pub struct G<T: crate::Tr> { pub source: T::Assoc }"),
+    ("Error", "#[derive(derive_more::Debug, derive_more::Display, derive_more::Error)] #[display(\"e\")] pub struct G<T: crate::Tr>(pub <T as crate::Tr>::Assoc);"),
+    ("Error", "#[derive(derive_more::Debug, derive_more::Display, derive_more::Error)] #[display(\"e\")] pub enum G<T: crate::Tr, U> where U: crate::Tr { A(T::Assoc), B { source: Box<U::Assoc> }, C }"),
+    ("Error", "#[derive(derive_more::Debug, derive_more::Display, derive_more::Error)] #[display(\"e\")] pub struct G<'a, T>(#[error(source)] pub &'a T, pub u8);".replace("&'a T", "Vec<T>").replace("<'a, T>", "<T>")),
+    ("Display", '#[derive(derive_more::Display)] #[display("{a}")] pub struct G<T: crate::Tr> { pub a: T::Assoc }'),
+    ("Debug", "#[derive(derive_more::Debug)] pub struct G<T: crate::Tr> { pub a: T::Assoc, pub b: <T as crate::Tr>::Assoc }"),
     ("From", "#[derive(derive_more::From)] pub struct G<'a, T, const N: usize>(pub &'a [T; N]);"),
     ("From", "#[derive(derive_more::From)] pub enum G<'a, T, U: Clone = u8> where T: 'a { A(&'a T), B(U, i8), #[from(skip)] C(&'a T) }"),
     ("From", "#[derive(derive_more::From)] #[from(forward)] pub struct G<T, const N: usize>(pub T, pub [u8; N]);"),
@@ -247,7 +253,7 @@ def run(chk, tier, seed, replay):
         variants = [v for v in variants if json.load(open(replay))["key"].startswith(v[0])]
     snips = [(k, d) for k, d in variants]
     log(f"[C01] {len(reqs)} headers checked in-process, {len(snips)} declarations compiled under deny(warnings)")
-    prelude = "pub static K: i32 = 5;\n"
+    prelude = "pub static K: i32 = 5;\npub trait Tr { type Assoc; }\n"
     per, br = vlib.verdict_crate("c01_deny", snips, prelude=prelude, crate_attrs="#![deny(warnings)]\n#![allow(dead_code, non_camel_case_types)]",
                                  check_only=True)
     failing = [k for k, _ in snips if [x for x in per[k] if x["level"] in ("error", "warning")]]
